@@ -213,7 +213,8 @@ CONTRACTS += [CopyVariable(1), CopyVariable(3), CopyVariable(2, False)]
 # never change an input) and every input is unchanged (values, masks, dimension lengths, variable objects)
 # ---------------------------------------------------------------------------
 
-_ISOLATION = ('is-a-new-file', 'fresh-buffer', 'fresh-buffers', 'input-unchanged', 'inputs-unchanged')
+_ISOLATION = ('is-a-new-file', 'fresh-buffer', 'fresh-buffers', 'input-unchanged', 'inputs-unchanged', 'fresh buffer', 'source unchanged', 'the source is unchanged',
+              'input keeps its variables and dimensions')
 
 
 def _isolation_variant(base, label):
@@ -239,6 +240,9 @@ def _isolation_contracts():
     S, A, K = _isolation_variant(C02.SliceBasic, 'sliceDimensions'), _isolation_variant(C03.ApplyAlong, 'applyAlongDimensions'), _isolation_variant(C04.Stack, 'stack')
     B, M = _isolation_variant(C06.Pncbo, 'pncbo'), _isolation_variant(C06.MaskMethod, 'mask')
     out = [S('int'), S('slice'), S('reversed'), S('index-array'), A([('t', 'mean')]), A([('t', 'max'), ('y', 'max')]), K(2), K(3), B('*'), M(('greater', 'less_equal'))]
+    from . import C01
+    O, R = _isolation_variant(C01.SimpleOp, 'copy / subset / rename / removeSingleton'), _isolation_variant(C01.ReorderDims, 'reorderDimensions')
+    out += [O(k) for k in C01.SimpleOp.OPS] + [R(('x', 'y', 't')), R(('y', 'x', 't'))]
     for c in out:
         c.name = 'isolation of ' + c.name
     return out
@@ -391,7 +395,7 @@ def bounded_replay(p):
 META = dict(
     level='other',
     technique='frame conditions (single functions and five whole operations) and handle type-state proved by pyvc (z3); bounded run-time snapshots for the remaining operations and numpy-level aliasing',
-    text='Proved for files of ANY size: sliceDimensions (4 selector kinds), applyAlongDimensions, stack (2, 3 files), pncbo and mask return a NEW file whose variables own fresh buffers and leave every '
+    text='Proved for files of ANY size: sliceDimensions (4 selector kinds), applyAlongDimensions, stack (2, 3 files), pncbo, mask, copy, subsetVariables, renameVariable, renameDimension, removeSingleton and reorderDimensions return a NEW file whose variables own fresh buffers and leave every '
          'input unchanged (values, masks, dimension lengths). Proved for all inputs: getTimes does not write the TFLAG variable, val2idx does not write the coordinate variable (any '
          'coordinate, any query), netcdf.close/__del__ close the libnetcdf handle at most once from every handle state. Bounded: '
          'snapshot/alias checks of every catalogue operation and enumerated open/close/del/gc interleavings.',
